@@ -7,6 +7,55 @@ HERE = os.path.dirname(os.path.dirname(os.path.abspath(__file__)))
 PROPS = [json.loads(l)["id"] for l in open(os.path.join(HERE, "properties.jsonl"))]
 
 CHECKS = {
+    "C09": dict(
+        category="exploration", design="DESIGN.md §3 C09",
+        technique="property-based testing of whole workflows through the real client Service and the real server handler over a "
+                  "loopback websocket; oracle = delivered result bytes deserialize to DB.get(w, empty)",
+        text="Generated (scheme, config, JSON database with UTF-8 keywords and mixed-case hex ids, order of workflow prefixes, "
+             "client re-creation bits at every step boundary, keyword sequence with absent/repeated keywords, optional server "
+             "restart) workflows run in one process against the real frontend; every delivered result must equal the posting "
+             "list, hex/int views must reproduce the JSON identifiers and every step whose prerequisites hold must complete.",
+        note="Cleanup pause is a zero-delay shim; a restart is 'stop listening, fresh ServicesManager, listen again'."),
+    "C10": dict(
+        category="exploration", design="DESIGN.md §3 C10",
+        technique="model-based testing of raw protocol histories against a 3-state reference model (trace equality) over real "
+                  "loopback websockets; exhaustive enumeration of all histories of depth <= 4 (quick) / <= 5 (thorough) over a "
+                  "6-letter alphabet plus Hypothesis histories with foreign-sid / unknown-type messages and restarts",
+        text="Histories of config(c1|c2), upload(e1|e2), search, foreign-sid, unknown-type messages, reconnects and restarts on one "
+             "sid are executed against the real handler; init-echo states, ok/refused outcomes and result payloads must equal "
+             "those of the forward-only write-once model, the stored config/index must be the accepted ones.",
+        note="Refusal = ok:False reply or closure; control messages are skipped; connections are strictly consecutive."),
+    "C11": dict(
+        category="exploration", design="DESIGN.md §3 C11",
+        technique="model-based testing of client operation sequences against a 5-flag reference model (accept/refuse, persisted "
+                  "flags, file immutability on refusal, key immutability, final searches); exhaustive depth <= 4/5 over 6 operations",
+        text="Every operation runs on a client Service freshly loaded from disk against a live in-process server; acceptance must "
+             "follow the documented prerequisite relation, persisted flags must equal the model, refused operations must leave all "
+             "files byte-identical, the key file never changes, invalid configurations create no service, and once the index is "
+             "uploaded every search returns DB[w].",
+        note="Operations on a never-created sid are outside the property; refusal = any exception from the handler."),
+    "C12": dict(
+        category="exploration", design="DESIGN.md §3 C12",
+        technique="schedule exploration with a harness-owned scheduler: stateless DFS enumeration of all interleavings of opens, "
+                  "script steps and cleanup-delay releases for small scripts over an in-memory transport with the server's exact "
+                  "websocket surface, Hypothesis for larger scripts, history invariants as oracle, every violation re-executed "
+                  "over real loopback sockets",
+        text="The server's only timing source (the 1 s cleanup sleep) is a gate released by the schedule and the loop is run to "
+             "quiescence after each event, so interleavings are explored deterministically: all schedules of 2 connections "
+             "(scripts <= 1 + selected <= 2 in quick, all <= 2 in thorough) and 3 connections (scripts <= 1). Invariants: no reply "
+             "to a later connection while an earlier one is open; probe state >= every acknowledged state; the acknowledged "
+             "config/index are the stored and searched ones.",
+        note="Exhaustive for the listed script sets only; OS-level socket reordering and multi-process servers are out of reach."),
+    "C13": dict(
+        category="fault_enumeration", design="DESIGN.md §3 C13",
+        technique="fault injection by real process kill (os._exit) at every enumerated file-system mutation of every persisting "
+                  "handler, in child processes, followed by a scripted user recovery and an end-to-end search oracle",
+        text="A dry run lists every mkdir / open-for-write / write / close / unlink / replace of the server's config and index "
+             "handlers and close_service and of each client command; the component is killed immediately before each mutation and "
+             "with torn first/last writes, restarted on the same directory, the interrupted command is re-run and the workflow "
+             "finished: the handshake must succeed with a state matching the files on disk and all searches must equal DB[w]. "
+             "Quick: PiBas, 1 database (about 90 crash scenarios); thorough: 3 schemes x 3 databases.",
+        note="No fsync / power-loss reordering model, no disk-full; client and server use separate scratch HOMEs."),
     "C01": dict(
         category="exploration", design="DESIGN.md §3 C01",
         technique="property-based testing with a direct oracle (Search == DB[w]) over Hypothesis-generated (config, DB) cases per "
